@@ -4,6 +4,7 @@ mod mqtt;
 mod opts;
 mod session;
 mod sim;
+mod wire;
 
 use rand::rngs::StdRng;
 use rand::{Rng, SeedableRng};
@@ -109,7 +110,9 @@ fn cmd_script(a: &HashMap<String, String>) -> i32 {
 
 fn main() {
     let args: Vec<String> = std::env::args().collect();
-    sim::install_quiet_panic_hook();
+    if std::env::var("PVH_LOUD").is_err() {
+        sim::install_quiet_panic_hook();
+    }
     let cmd = args.get(1).map(|s| s.as_str()).unwrap_or("");
     let a = parse_args(&args[2.min(args.len())..]);
     let code = match cmd {
@@ -131,6 +134,8 @@ fn main() {
         "chunk" => families::chunk(&a),
         "fuzz" => families::fuzz(&a),
         "endings" => families::endings(&a),
+        "wiretx" => wire::wiretx(&a),
+        "wirerx" => wire::wirerx(&a),
         "disccmp" => families::disccmp(&a),
         _ => {
             eprintln!("usage: pvh <smoke|walk|script> [--key value ...]");
